@@ -736,10 +736,11 @@ func TestVerifC02(t *testing.T) {
 		"x CLUSTER_LIST{absent,empty,1,2 entries} x peer{.1,.2} x next hop{.1,.2} (6144 BGP paths) + 2 static paths: antisymmetry, ties only inside one reference class; transitivity on every ordered triple of D (thorough) / of the 3074 paths of D with next hop .1 (quick); " +
 		"(b) real LocRIB: every multiset of 2 and 3 candidates of the tie-prone sub-domain x every insertion order, every multiset of 4 candidates of the smaller sub-domain x every history " +
 		"(insertion order x removed element x removal point), BestPath and ECMP set compared with the canonical insertion of the same final candidates; " +
+		"(c) removal identity: base path and a twin differing in one attribute the decision process ignores (13 attributes x 3 base paths), alone or with a strictly better / worse third candidate: every arrival order x removed twin x removal point, stored candidates and BestPath compared with inserting the remaining ones; " +
 		"evaluations = pairs + triples + LocRIB histories; non-trivial = pairs of different paths + triples of different paths whose premise a>=b>=c holds + histories whose final candidates are not all in one reference class")
 	r.Require("pairs_strict", "pairs_tie_between_indistinguishable", "triples_premise_holds", "triples_with_tie_link",
 		"locrib_histories", "locrib_best_decided_at_cluster_list_or_peer_step", "locrib_ecmp_set_larger_than_1", "locrib_ecmp_set_smaller_than_candidates",
-		"locrib_bgp_and_static_candidates", "locrib_cluster_list_absent_and_nonempty", "locrib_removed_path_was_best")
+		"locrib_bgp_and_static_candidates", "locrib_cluster_list_absent_and_nonempty", "locrib_removed_path_was_best", "ident_histories")
 	if r.IsReplay() {
 		var c zvC02Case
 		r.ReplayCase(&c)
@@ -754,6 +755,10 @@ func TestVerifC02(t *testing.T) {
 				r.Fatalf("bad replay case")
 			}
 			zvC02Triple(r, c.Paths[0], c.Paths[1], c.Paths[2])
+		case "ident":
+			var ic zvC02IdentCase
+			r.ReplayCase(&ic)
+			zvC02IdentOne(r, ic)
 		case "locrib":
 			ps := zvSelBuildAll(c.Paths)
 			_, canon := zvC02Final(c.Paths, c.Hist)
@@ -765,7 +770,7 @@ func TestVerifC02(t *testing.T) {
 		}
 		for _, k := range []string{"pairs_strict", "pairs_tie_between_indistinguishable", "triples_premise_holds", "triples_with_tie_link",
 			"locrib_histories", "locrib_best_decided_at_cluster_list_or_peer_step", "locrib_ecmp_set_larger_than_1", "locrib_ecmp_set_smaller_than_candidates",
-			"locrib_bgp_and_static_candidates", "locrib_cluster_list_absent_and_nonempty", "locrib_removed_path_was_best"} {
+			"locrib_bgp_and_static_candidates", "locrib_cluster_list_absent_and_nonempty", "locrib_removed_path_was_best", "ident_histories"} {
 			r.Count(k, 1)
 		}
 		return
@@ -789,6 +794,7 @@ func TestVerifC02(t *testing.T) {
 	zvC02PartB(r, d3, d4)
 	r.Extra("part_b_max_shard_s", time.Since(t0).Seconds())
 	r.Extra("part_b_max_shard_cpu_s", zvSelCPU()-c0)
+	zvC02PartC(r)
 	r.Sample(zvC02Case{Kind: "triple", Paths: []zvSelPD{full[5], full[77], full[1301]}})
 	r.Sample(zvC02Case{Kind: "locrib", Paths: []zvSelPD{d3[0], d3[9], d3[20]}, Hist: []zvC02Op{{"add", 2}, {"add", 0}, {"add", 1}}})
 }
